@@ -13,6 +13,15 @@ use datafusion_expr_common::operator::Operator;
 use datafusion_physical_expr::intervals::cp_solver::{propagate_arithmetic, propagate_comparison};
 use hutil::{Args, Rng, Run};
 
+use std::sync::Arc;
+
+use arrow::array::{Array, ArrayRef, BooleanArray, Int64Array, RecordBatch};
+use arrow::datatypes::{DataType, Field, Schema};
+use datafusion_common::stats::Precision;
+use datafusion_physical_expr::PhysicalExpr;
+use datafusion_physical_expr::analysis::{AnalysisContext, ExprBoundaries, analyze};
+use datafusion_physical_expr::expressions::{BinaryExpr, Column, Literal};
+
 #[derive(Clone, Copy, PartialEq, Eq, Debug)]
 enum T {
     I8,
@@ -359,6 +368,400 @@ fn show_opt_pair(p: &Option<Option<(Iv, Iv)>>) -> String {
     }
 }
 
+// ------------------------------------------------------------------ floats: model-free oracle only
+
+/// endpoint / member candidates for floats: signed zeros, subnormals, values whose sums, products
+/// and quotients are inexact (0.1, 1/3, 1/7, 0.6 …), large and small magnitudes
+fn float_pool64() -> Vec<f64> {
+    let mut v = vec![
+        0.0, -0.0, 5e-324, -5e-324, 2.2250738585072014e-308, -2.2250738585072014e-308, 1e-300, -1e-300, 0.1, -0.1, 1.0 / 3.0, -1.0 / 3.0, 1.0 / 7.0,
+        -1.0 / 7.0, 1.0 / 7.0 + 0.25, 0.6, -0.6, 0.7, 1.0, -1.0, 1.1, 3.0, -3.0, 7.5, -7.5, 10.0, 1e10, -1e10, 1e16 + 2.0, 1e154, -1e154, 1e300, -1e300, f64::MAX, f64::MIN,
+        std::f64::consts::PI, -std::f64::consts::E,
+    ];
+    v.sort_by(|a, b| a.total_cmp(b));
+    v.dedup_by(|a, b| a.to_bits() == b.to_bits());
+    v
+}
+fn float_pool32() -> Vec<f32> {
+    let mut v = vec![
+        0.0f32, -0.0, 1e-45, -1e-45, 1.17549435e-38, -1.17549435e-38, 1e-30, -1e-30, 0.1, -0.1, 1.0 / 3.0, -1.0 / 3.0, 1.0 / 7.0, -1.0 / 7.0, 1.0 / 7.0 + 0.25, 0.6, -0.6, 0.7,
+        1.0, -1.0, 1.1, 3.0, -3.0, 7.5, -7.5, 10.0, 1e10, -1e10, 16777216.0, 1e19, -1e19, 1e30, -1e30, f32::MAX, f32::MIN, std::f32::consts::PI,
+    ];
+    v.sort_by(|a, b| a.total_cmp(b));
+    v.dedup_by(|a, b| a.to_bits() == b.to_bits());
+    v
+}
+
+trait Fl: Copy + PartialOrd + std::fmt::Debug {
+    const NAME: &'static str;
+    fn sv(v: Option<Self>) -> ScalarValue;
+    fn from_sv(s: &ScalarValue) -> Option<Option<Self>>;
+    fn finite(self) -> bool;
+    fn is_zero(self) -> bool;
+    fn op(self, op: AOp, b: Self) -> Self;
+    fn mid(self, b: Self) -> Self;
+    fn bits(self) -> String;
+    /// the engine's comparison semantics for floats: IEEE 754 totalOrder (arrow `cmp` kernels), −0.0 < +0.0
+    fn tcmp(self, b: Self) -> std::cmp::Ordering;
+    /// exact residual sign of a*b - v (fused multiply-add): < 0 means v was rounded UP from the exact product
+    fn mul_resid(self, b: Self, v: Self) -> f64;
+}
+impl Fl for f64 {
+    const NAME: &'static str = "f64";
+    fn sv(v: Option<f64>) -> ScalarValue {
+        ScalarValue::Float64(v)
+    }
+    fn from_sv(s: &ScalarValue) -> Option<Option<f64>> {
+        match s {
+            ScalarValue::Float64(v) => Some(*v),
+            _ => None,
+        }
+    }
+    fn finite(self) -> bool {
+        self.is_finite()
+    }
+    fn is_zero(self) -> bool {
+        self == 0.0
+    }
+    fn op(self, op: AOp, b: f64) -> f64 {
+        match op {
+            AOp::Add => self + b,
+            AOp::Sub => self - b,
+            AOp::Mul => self * b,
+            AOp::Div => self / b,
+        }
+    }
+    fn mid(self, b: f64) -> f64 {
+        self / 2.0 + b / 2.0
+    }
+    fn bits(self) -> String {
+        format!("{self:e}#{:016x}", self.to_bits())
+    }
+    fn tcmp(self, b: f64) -> std::cmp::Ordering {
+        self.total_cmp(&b)
+    }
+    fn mul_resid(self, b: f64, v: f64) -> f64 {
+        self.mul_add(b, -v)
+    }
+}
+impl Fl for f32 {
+    const NAME: &'static str = "f32";
+    fn sv(v: Option<f32>) -> ScalarValue {
+        ScalarValue::Float32(v)
+    }
+    fn from_sv(s: &ScalarValue) -> Option<Option<f32>> {
+        match s {
+            ScalarValue::Float32(v) => Some(*v),
+            _ => None,
+        }
+    }
+    fn finite(self) -> bool {
+        self.is_finite()
+    }
+    fn is_zero(self) -> bool {
+        self == 0.0
+    }
+    fn op(self, op: AOp, b: f32) -> f32 {
+        match op {
+            AOp::Add => self + b,
+            AOp::Sub => self - b,
+            AOp::Mul => self * b,
+            AOp::Div => self / b,
+        }
+    }
+    fn mid(self, b: f32) -> f32 {
+        self / 2.0 + b / 2.0
+    }
+    fn bits(self) -> String {
+        format!("{self:e}#{:08x}", self.to_bits())
+    }
+    fn tcmp(self, b: f32) -> std::cmp::Ordering {
+        self.total_cmp(&b)
+    }
+    fn mul_resid(self, b: f32, v: f32) -> f64 {
+        (self as f64) * (b as f64) - (v as f64)
+    }
+}
+
+fn fl_has<F: Fl>(lo: Option<F>, hi: Option<F>, v: F) -> bool {
+    lo.is_none_or(|l| l <= v) && hi.is_none_or(|u| v <= u)
+}
+fn fl_show<F: Fl>(lo: Option<F>, hi: Option<F>) -> String {
+    format!("[{}, {}]", lo.map(|x| x.bits()).unwrap_or("NULL".into()), hi.map(|x| x.bits()).unwrap_or("NULL".into()))
+}
+
+/// floats: for every pair of intervals and every pair of members (endpoints and interior points),
+/// the round-to-nearest result of `a op b` (which lies between the downward- and upward-rounded
+/// results the code is supposed to use for the endpoints) must be inside the result interval —
+/// by direct comparison and by the engine's `contains_value`; no tolerance.
+fn float_oracle<F: Fl>(run: &mut Run, rng: &mut Rng, pool: &[F]) {
+    // endpoint subset for this run
+    let n_ep = run.budget(13, 22) as usize;
+    let mut eps: Vec<Option<F>> = vec![None];
+    let mut idx: Vec<usize> = (0..pool.len()).collect();
+    for i in 0..idx.len() {
+        let j = i + rng.below((idx.len() - i) as u64) as usize;
+        idx.swap(i, j);
+    }
+    let mut chosen: Vec<usize> = idx.into_iter().take(n_ep).collect();
+    chosen.sort();
+    eps.extend(chosen.iter().map(|i| Some(pool[*i])));
+    let mut ivs: Vec<(Option<F>, Option<F>, Interval)> = vec![];
+    for &lo in &eps {
+        for &hi in &eps {
+            if let (Some(l), Some(h)) = (lo, hi) {
+                if !(l <= h) {
+                    continue;
+                }
+            }
+            if let Ok(i) = Interval::try_new(F::sv(lo), F::sv(hi)) {
+                let (Some(l2), Some(h2)) = (F::from_sv(i.lower()), F::from_sv(i.upper())) else { continue };
+                ivs.push((l2, h2, i));
+            }
+        }
+    }
+    run.add(&format!("float/{}/intervals", F::NAME), ivs.len() as u64);
+    let members = |lo: Option<F>, hi: Option<F>, rng: &mut Rng| -> Vec<F> {
+        let mut m: Vec<F> = vec![];
+        m.extend(lo);
+        m.extend(hi);
+        if let (Some(l), Some(h)) = (lo, hi) {
+            m.push(l.mid(h));
+        }
+        for _ in 0..3 {
+            m.push(*rng.pick(pool));
+        }
+        // membership in the engine's sense (totalOrder): [x, −0.0] does not contain +0.0
+        m.retain(|v| v.finite() && lo.is_none_or(|l| l.tcmp(*v).is_le()) && hi.is_none_or(|u| v.tcmp(u).is_le()));
+        m
+    };
+    let n_pairs = run.budget(6000, 120_000);
+    for _ in 0..n_pairs {
+        let (alo, ahi, ai) = &ivs[rng.below(ivs.len() as u64) as usize];
+        let (blo, bhi, bi) = &ivs[rng.below(ivs.len() as u64) as usize];
+        let ma = members(*alo, *ahi, rng);
+        let mb = members(*blo, *bhi, rng);
+        for op in AOPS {
+            let Ok(Ok(r)) = hutil::catch(std::panic::AssertUnwindSafe(|| op.apply(ai, bi))) else {
+                run.count("float/err-or-panic");
+                continue;
+            };
+            let (Some(rlo), Some(rhi)) = (F::from_sv(r.lower()), F::from_sv(r.upper())) else { continue };
+            run.count(&format!("float/{}/{}", F::NAME, op.name()));
+            // generator sensitivity: an endpoint product that round-to-nearest rounds AWAY from the
+            // interval would fall outside if the code rounded that endpoint in the wrong direction
+            if op == AOp::Mul {
+                if let (Some(ah), Some(bl), Some(al), Some(bh)) = (*ahi, *blo, *alo, *bhi) {
+                    // strictly negative I, strictly positive J: upper endpoint is a.hi * b.lo
+                    let zero_f = ah.op(AOp::Sub, ah);
+                    if ah < zero_f && bl > zero_f {
+                        let v = ah.op(AOp::Mul, bl);
+                        if v.finite() && ah.mul_resid(bl, v) < 0.0 {
+                            run.count("float/sensitive: neg x pos upper endpoint product rounded up by round-to-nearest");
+                        }
+                    }
+                    if al > zero_f && bh < zero_f {
+                        let v = al.op(AOp::Mul, bh);
+                        if v.finite() && al.mul_resid(bh, v) < 0.0 {
+                            run.count("float/sensitive: pos x neg upper endpoint product rounded up by round-to-nearest");
+                        }
+                    }
+                }
+            }
+            let mut bad: Option<String> = None;
+            let mut bad_engine: Option<String> = None;
+            for &a in &ma {
+                for &b in &mb {
+                    if op == AOp::Div && b.is_zero() {
+                        continue;
+                    }
+                    let v = a.op(op, b);
+                    if !v.finite() {
+                        continue; // not representable as a finite value
+                    }
+                    run.count("float/value-pairs");
+                    if !fl_has(rlo, rhi, v) && bad.is_none() {
+                        bad = Some(format!("a={} b={} a op b={}", a.bits(), b.bits(), v.bits()));
+                    }
+                    // engine's own membership test (orders -0.0 below +0.0: skip exact zeros)
+                    if !v.is_zero() {
+                        if let Ok(false) = r.contains_value(F::sv(Some(v))) {
+                            if bad_engine.is_none() {
+                                bad_engine = Some(format!("a={} b={} a op b={}", a.bits(), b.bits(), v.bits()));
+                            }
+                        }
+                    }
+                }
+            }
+            run.oracle(
+                bad.is_none(),
+                &format!("float-arith-unsound ty={} op={} I={} J={}", F::NAME, op.name(), fl_show(*alo, *ahi), fl_show(*blo, *bhi)),
+                &format!("result {} does not contain {:?}", fl_show(rlo, rhi), bad),
+            );
+            run.oracle(
+                bad_engine.is_none(),
+                &format!("float-arith-unsound-contains_value ty={} op={} I={} J={}", F::NAME, op.name(), fl_show(*alo, *ahi), fl_show(*blo, *bhi)),
+                &format!("result {}: contains_value is false for {:?}", fl_show(rlo, rhi), bad_engine),
+            );
+        }
+        for op in COPS {
+            let Some(r) = op.apply(ai, bi).ok().and_then(|r| bool_iv(&r)) else { continue };
+            let mut bad = None;
+            for &a in &ma {
+                for &b in &mb {
+                    // truth value as the engine computes it (totalOrder: −0.0 < +0.0)
+                    let o = a.tcmp(b);
+                    let v = match op {
+                        COp::Eq => o.is_eq(),
+                        COp::Gt => o.is_gt(),
+                        COp::Ge => o.is_ge(),
+                        COp::Lt => o.is_lt(),
+                        COp::Le => o.is_le(),
+                    };
+                    if !(r.0 <= v && v <= r.1) && bad.is_none() {
+                        bad = Some(format!("a={} b={}", a.bits(), b.bits()));
+                    }
+                }
+            }
+            run.count(&format!("float/{}/cmp", F::NAME));
+            run.oracle(bad.is_none(), &format!("float-cmp-unsound ty={} op={} I={} J={}", F::NAME, op.name(), fl_show(*alo, *ahi), fl_show(*blo, *bhi)), &format!("result {} but {:?}", show_b(r), bad));
+        }
+    }
+}
+
+// ------------------------------------------------------------------ analyze() end to end
+
+#[derive(Clone, Debug)]
+enum Term {
+    Col(usize),
+    ColPlus(usize, i64),
+    ColMinusCol(usize, usize),
+    ColPlusCol(usize, usize),
+    Lit(i64),
+}
+fn term_expr(t: &Term, names: &[&str]) -> Arc<dyn PhysicalExpr> {
+    let col = |i: usize| Arc::new(Column::new(names[i], i)) as Arc<dyn PhysicalExpr>;
+    let lit = |v: i64| Arc::new(Literal::new(ScalarValue::Int64(Some(v)))) as Arc<dyn PhysicalExpr>;
+    match t {
+        Term::Col(i) => col(*i),
+        Term::ColPlus(i, k) => Arc::new(BinaryExpr::new(col(*i), Operator::Plus, lit(*k))),
+        Term::ColMinusCol(i, j) => Arc::new(BinaryExpr::new(col(*i), Operator::Minus, col(*j))),
+        Term::ColPlusCol(i, j) => Arc::new(BinaryExpr::new(col(*i), Operator::Plus, col(*j))),
+        Term::Lit(v) => lit(*v),
+    }
+}
+
+/// `analyze` (ExprIntervalGraph::update_ranges end to end): every concrete row drawn from the input
+/// boundaries that satisfies the predicate must lie inside the returned boundaries, and the result
+/// must not be "infeasible" / selectivity 0 when such a row exists.  Schemas include duplicate
+/// column names with different ranges (the shape above a join of t1(id) with t2(id)).
+fn analyze_oracle(run: &mut Run, rng: &mut Rng) {
+    let name_sets: [&[&str]; 6] = [&["id", "id"], &["a", "b"], &["a", "a", "b"], &["id", "x", "id"], &["a", "b", "c"], &["v", "v", "v"]];
+    let n = run.budget(2500, 40_000);
+    for _ in 0..n {
+        let names = *rng.pick(&name_sets);
+        let nc = names.len();
+        // ranges: disjoint or overlapping, sometimes singletons
+        let ranges: Vec<(i64, i64)> = (0..nc)
+            .map(|_| {
+                let lo = *rng.pick(&[0i64, 0, 100, -50, 10, 150, -5]) + rng.range(0, 5);
+                let w = *rng.pick(&[0i64, 1, 10, 10, 100, 200]);
+                (lo, lo + w)
+            })
+            .collect();
+        let schema = Schema::new(names.iter().map(|n| Field::new(*n, DataType::Int64, true)).collect::<Vec<_>>());
+        // 1..3 conjuncts
+        let nconj = 1 + rng.below(3) as usize;
+        let mut conj: Vec<(Term, COp, Term)> = vec![];
+        for _ in 0..nconj {
+            let i = rng.below(nc as u64) as usize;
+            let j = rng.below(nc as u64) as usize;
+            let anchor = |rng: &mut Rng, i: usize| {
+                let (lo, hi) = ranges[i];
+                *rng.pick(&[lo, hi, (lo + hi) / 2, lo - 1, hi + 1, (lo + hi) / 2 + 1])
+            };
+            let (l, r) = match rng.below(6) {
+                0 | 1 => (Term::Col(i), Term::Lit(anchor(rng, i))),
+                2 => (Term::Lit(anchor(rng, i)), Term::Col(i)),
+                3 if i != j => (Term::Col(i), Term::Col(j)),
+                4 => (Term::ColPlus(i, rng.range(-3, 3)), Term::Lit(anchor(rng, i))),
+                5 if i != j => (if rng.chance(1, 2) { Term::ColMinusCol(i, j) } else { Term::ColPlusCol(i, j) }, Term::Lit(anchor(rng, i) - if rng.chance(1, 2) { anchor(rng, j) } else { 0 })),
+                _ => (Term::Col(j), Term::Lit(anchor(rng, j))),
+            };
+            conj.push((l, *rng.pick(&COPS), r));
+        }
+        let mut pred: Option<Arc<dyn PhysicalExpr>> = None;
+        for (l, op, r) in &conj {
+            let e: Arc<dyn PhysicalExpr> = Arc::new(BinaryExpr::new(term_expr(l, names), op.operator(), term_expr(r, names)));
+            pred = Some(match pred {
+                None => e,
+                Some(p) => Arc::new(BinaryExpr::new(p, Operator::And, e)),
+            });
+        }
+        let pred = pred.unwrap();
+        let boundaries: Vec<ExprBoundaries> = (0..nc)
+            .map(|i| ExprBoundaries {
+                column: Column::new(names[i], i),
+                interval: Some(Interval::make(Some(ranges[i].0), Some(ranges[i].1)).unwrap()),
+                distinct_count: if rng.chance(1, 2) { Precision::Absent } else { Precision::Inexact((ranges[i].1 - ranges[i].0 + 1) as usize) },
+            })
+            .collect();
+        let dup = (0..nc).any(|i| (0..i).any(|j| names[i] == names[j]));
+        let res = hutil::catch(std::panic::AssertUnwindSafe(|| analyze(&pred, AnalysisContext::new(boundaries), &schema)));
+        let ctx = match res {
+            Ok(Ok(c)) => c,
+            _ => {
+                run.count("analyze/err-or-panic");
+                continue;
+            }
+        };
+        run.count(if dup { "analyze/duplicate-column-names" } else { "analyze/distinct-column-names" });
+        // concrete rows: grid over boundary values of each column
+        let vals: Vec<Vec<i64>> = ranges
+            .iter()
+            .map(|(lo, hi)| {
+                let mut v = vec![*lo, *hi, (*lo + *hi) / 2, *lo + 1, *hi - 1, (*lo + *hi) / 2 + 1];
+                v.retain(|x| lo <= x && x <= hi);
+                v.sort();
+                v.dedup();
+                v
+            })
+            .collect();
+        let mut rows: Vec<Vec<i64>> = vec![vec![]];
+        for v in &vals {
+            rows = rows.iter().flat_map(|r| v.iter().map(move |x| { let mut r2 = r.clone(); r2.push(*x); r2 })).collect();
+        }
+        let cols: Vec<ArrayRef> = (0..nc).map(|i| Arc::new(Int64Array::from(rows.iter().map(|r| r[i]).collect::<Vec<_>>())) as ArrayRef).collect();
+        let batch = RecordBatch::try_new(Arc::new(schema.clone()), cols).unwrap();
+        let Ok(tv) = pred.evaluate(&batch).and_then(|v| v.into_array(rows.len())) else {
+            run.count("analyze/engine-eval-error");
+            continue;
+        };
+        let tv = tv.as_any().downcast_ref::<BooleanArray>().unwrap().clone();
+        let sat: Vec<&Vec<i64>> = rows.iter().enumerate().filter(|(k, _)| !tv.is_null(*k) && tv.value(*k)).map(|(_, r)| r).collect();
+        if sat.is_empty() {
+            run.count("analyze/no-satisfying-row");
+            continue;
+        }
+        run.count(if ctx.boundaries.iter().all(|b| b.interval.is_none()) { "analyze/result-infeasible" } else { "analyze/result-feasible" });
+        let mut bad: Option<String> = None;
+        for r in &sat {
+            for (i, b) in ctx.boundaries.iter().enumerate() {
+                let inside = match &b.interval {
+                    None => false,
+                    Some(iv) => Iv::of(iv).is_some_and(|x| x.has(r[i] as i128)),
+                };
+                if !inside && bad.is_none() {
+                    bad = Some(format!("row {r:?} column #{i} ({}) result interval {}", names[i], b.interval.as_ref().map(|x| x.to_string()).unwrap_or("None".into())));
+                }
+            }
+        }
+        let shown = format!("names={names:?} ranges={ranges:?} pred=[{pred}]");
+        run.oracle(bad.is_none(), &format!("analyze-removes-satisfying-row dup={dup} {shown}"), &format!("{bad:?}"));
+        run.oracle(ctx.selectivity != Some(0.0), &format!("analyze-selectivity-zero dup={dup} {shown}"), &format!("selectivity {:?} although {} grid rows satisfy the predicate", ctx.selectivity, sat.len()));
+    }
+}
+
 pub fn run(run: &mut Run, args: &Args) {
     let mut rng = Rng::new(args.seed);
     let thorough = run.thorough();
@@ -624,6 +1027,10 @@ pub fn run(run: &mut Run, args: &Args) {
             }
         }
     }
+    float_oracle::<f64>(run, &mut rng, &float_pool64());
+    float_oracle::<f32>(run, &mut rng, &float_pool32());
+    analyze_oracle(run, &mut rng);
     let _ = std::panic::take_hook();
+    run.note("floats (oracle only): Float64/Float32 intervals over signed zeros, subnormals, inexact values (0.1, 1/3, 1/7, 0.6), large/small magnitudes, MIN/MAX, NULL endpoints; members = endpoints, midpoint, pool values; a op b (round to nearest) must be inside the result, direct comparison and contains_value, no tolerance.  analyze(): 2..3 Int64 columns incl. duplicate names with different ranges, 1..3 conjuncts of comparisons over columns, literals, col+k, col±col; grid rows from the input boundaries");
     run.note("endpoint sets: {NULL, MIN, MIN+1, -1|2, 0, 1, MAX-1, MAX} + seeded random endpoints (small, ±sqrt(MAX), MAX/2, MIN/2, uniform); value oracle: boundary grid + endpoints±1 (quick), every 8-bit value (thorough)");
 }
